@@ -195,6 +195,39 @@ func checkC12(p *Prog, rp *Report) {
 				}
 			}
 		}
+		// a recorded hash that names another algorithm ("md5:<hex>", "SHA1:<hex>", ...) must not change the
+		// algorithm of the entry: it is not hexadecimal and is refused, or the entry's own algorithm is used
+		for _, lab := range []string{"md5:" + strings.Repeat("ab", 16), "MD5:" + strings.Repeat("ab", 16), "sha1:" + strings.Repeat("cd", 20), "SHA512:" + strings.Repeat("01", 64)} {
+			m := NewMachine(p, nil)
+			installHashCtors(m, &counter)
+			st := initState(m, "hashio", "control")
+			id := st.alloc(fhT, mkStruct(fhT, map[string]Val{"Algorithm": "sha256", "Hash": lab, "Filename": "f"}))
+			st.push(vf, []Val{Ptr{Obj: id}}, nil)
+			out := m.Run(st)
+			if len(out) != 1 || out[0].Status != stRet {
+				problems = append(problems, "undecided: Verifier of an entry with a labelled hash: "+retDesc(out))
+				continue
+			}
+			tv := out[0].Ret.(*TupleV)
+			if _, errNil := tv.E[1].(nilV); !errNil {
+				continue
+			}
+			tag := ""
+			if iv, ok := tv.E[0].(IfaceV); ok {
+				if pp, ok := iv.V.(Ptr); ok {
+					if sv, ok := out[0].Heap[pp.Obj].V.(*StructV); ok {
+						for _, f := range sv.F {
+							if t := hashTag(out[0], f); t != "" {
+								tag = t
+							}
+						}
+					}
+				}
+			}
+			if !strings.HasPrefix(tag, "crypto/sha256.New#") {
+				problems = append(problems, fmt.Sprintf("a sha256 entry whose recorded hash is spelled %q is verified with %s: the spelling of the hash replaces the entry's algorithm", clip(lab, 24), tag))
+			}
+		}
 		// invalid hex
 		{
 			m := NewMachine(p, nil)
